@@ -559,7 +559,7 @@ func TestSpin(t *testing.T) {
 	if vlib.Replaying() {
 		return // reported and replayed as TestRelease cases
 	}
-	r.Rule("spin search: one generated connection (grammar / mutated / raw) per case against a lab child of its own, then an 80 ms idle window: more than 60 ms of process CPU in it is a suspicion, confirmed by the full release measurement (fresh child, attribution) before it is reported")
+	r.Rule("spin search: one generated connection (grammar / mutated / raw) per case against a lab child of its own, then an 80 ms idle window: more than 50 ms of process CPU in it (20 ms when the server has not closed the connection 3 s after the client's end) is a suspicion, confirmed by the full release measurement (fresh child, attribution) before it is reported")
 	c, err := svc.StartChild(nil)
 	if err != nil {
 		t.Fatalf("infra: %v", err)
@@ -588,9 +588,13 @@ func TestSpin(t *testing.T) {
 			return
 		}
 		nt := false
+		stillOpen := false
 		for _, cr := range resp.Conns {
 			if cr.Events > 0 || cr.Replies > 0 || cr.Consumed > 0 {
 				nt = true
+			}
+			if !cc.UDP && !cr.Closed {
+				stillOpen = true // 3 s after the client's end: worth the full measurement (load independent)
 			}
 		}
 		fp := ""
@@ -606,7 +610,10 @@ func TestSpin(t *testing.T) {
 		if e0 != nil || e1 != nil {
 			return
 		}
-		if m1.Stats.CPUMs-m0.Stats.CPUMs <= 60 {
+		// a handler that merely waits (for a timeout, for a data connection) uses no CPU; a
+		// spinning one gets at least a share of a core even on a loaded machine
+		cpu := m1.Stats.CPUMs - m0.Stats.CPUMs
+		if cpu <= 50 && !(stillOpen && cpu >= 20) {
 			return
 		}
 		// suspicion: this child is spinning. Confirm on fresh children with the full oracle.
